@@ -231,13 +231,32 @@ func (s *Store) begin(verb string, k storeKey, dry bool) (*Request, error) {
 	}
 	r := &Request{Idx: idx, Verb: verb, Key: k, DryRun: dry, Pre: deepCopyMap(s.objs[k]), LastRead: deepCopyMap(s.lastRead[k])}
 	s.Log = append(s.Log, r)
-	if f := s.Faults[idx]; f == "err" {
+	if f := s.Faults[idx]; f != "" && f != "lost" {
+		// every kind but "lost" fails the request before it has any effect; they differ in the API status returned
 		r.Fault = "err"
 		r.Err = "InjectedFault"
 		r.Post = r.Pre
-		return r, apierrors.NewInternalError(&faultErr{"injected fault before effect"})
+		return r, injectedError(f, k)
 	}
 	return r, nil
+}
+
+// injectedError: the API status an injected fault answers with.
+func injectedError(kind string, k storeKey) error {
+	switch kind {
+	case "webhook":
+		return apierrors.NewInternalError(&faultErr{`failed calling webhook "injected.example.com": Post "https://webhook.svc:443/mutate": dial tcp: connection refused`})
+	case "conflict":
+		return apierrors.NewConflict(gr(k), k.Name, &faultErr{"injected fault: the object has been modified"})
+	case "timeout":
+		return apierrors.NewServerTimeout(gr(k), "injected", 1)
+	case "unavailable":
+		return apierrors.NewServiceUnavailable("injected fault: service unavailable")
+	case "toomany":
+		return apierrors.NewTooManyRequests("injected fault: too many requests", 1)
+	default: // "err"
+		return apierrors.NewInternalError(&faultErr{"injected fault before effect"})
+	}
 }
 
 func (s *Store) end(r *Request, err error) error {
